@@ -99,6 +99,7 @@ def main():
         meta_p = os.path.join(d, "meta.json")
         meta = json.load(open(meta_p)) if os.path.isfile(meta_p) else {}
         meta["detected_by"] = caught
+        meta["detected_tier"] = tier
         meta["checks_run_against_it"] = ran
         json.dump(meta, open(meta_p, "w"), indent=1)
         print("%-16s %s  %s" % (s, "CAUGHT by " + ", ".join(caught) if caught else "missed", "; ".join("%s rc=%s %ss" % (r["check"], r["exit"], r["wall_s"]) for r in ran)), flush=True)
